@@ -83,7 +83,11 @@ func c06Subset(t *rapid.T, ids []int, label string) []int {
 
 func TestVerifC06TakeCPUs(t *testing.T) {
 	rec := vk.New(t, "C06", "takeCPUs")
-	rapid.Check(t, func(t *rapid.T) {
+	rapid.Check(t, c06TakeCPUsProp(rec))
+}
+
+func c06TakeCPUsProp(rec *vk.Rec) func(*rapid.T) {
+	return func(t *rapid.T) {
 		c := rec.Begin()
 		defer c.End()
 		tp := c06GenTopo(t)
@@ -166,7 +170,7 @@ func TestVerifC06TakeCPUs(t *testing.T) {
 			c.Violation(t, "takecpus:not-from-free", "result %v not within free %v (topo=%+v bind=%v excl=%v pref=%v)", got, availSet, tp, bind, excl, preferred)
 			return
 		}
-	})
+	}
 }
 
 // ---------------------------------------------------------------- (2) NUMA split
@@ -178,7 +182,11 @@ func c06Mask(ids []int) bitmask.BitMask {
 
 func TestVerifC06NUMASplit(t *testing.T) {
 	rec := vk.New(t, "C06", "numaSplit")
-	rapid.Check(t, func(t *rapid.T) {
+	rapid.Check(t, c06NUMASplitProp(rec))
+}
+
+func c06NUMASplitProp(rec *vk.Rec) func(*rapid.T) {
+	return func(t *rapid.T) {
 		c := rec.Begin()
 		defer c.End()
 		nNodes := rapid.IntRange(1, 4).Draw(t, "numaNodes")
@@ -350,7 +358,7 @@ func TestVerifC06NUMASplit(t *testing.T) {
 				return
 			}
 		}
-	})
+	}
 }
 
 func c06RLOne(rl corev1.ResourceList) map[string]string {
@@ -859,4 +867,20 @@ func c06PolicyHolds(p schedulingconfig.CPUBindPolicy, cpus cpuset.CPUSet, topo *
 		}
 	}
 	return true
+}
+
+// ---------------------------------------------------------------- native fuzzing (thorough tier): the same properties, with the
+// byte stream that drives rapid's generators mutated under coverage guidance
+
+func FuzzVerifC06NUMASplit(f *testing.F) {
+	rec := vk.New(f, "C06", "numaSplitFuzz")
+	f.Add([]byte{})
+	f.Add([]byte{3, 0, 0, 0, 0, 0, 0, 0, 6, 0, 0, 0, 0, 0, 0, 0, 0, 0, 0, 0, 0, 0, 0, 0, 1, 0, 0, 0, 0, 0, 0, 0})
+	f.Fuzz(rapid.MakeFuzz(c06NUMASplitProp(rec)))
+}
+
+func FuzzVerifC06TakeCPUs(f *testing.F) {
+	rec := vk.New(f, "C06", "takeCPUsFuzz")
+	f.Add([]byte{})
+	f.Fuzz(rapid.MakeFuzz(c06TakeCPUsProp(rec)))
 }
